@@ -102,9 +102,9 @@ def hbWitness : List (Tid × Ev) :=
    (2, .cas .sc (some 0) (some 1) true (some 0)), (2, .ald .head .sc (some 0)), (2, .ret .beg),
    (2, .call .der), (2, .pldData 0 5), (2, .ret .der),
    (1, .call .beg), (1, .ald .head .sc (some 0)), (1, .ret .beg), (1, .call (.erase true)), (1, .mlk),
-   (1, .ald (.nnext 0) .sc none), (1, .pldDel 0 false), (1, .pstDel 0 true), (1, .ald (.nback 0) .sc none),
-   (1, .ald (.nnext 0) .sc none), (1, .ast .head .sc none), (1, .ast .tail .sc none),
-   (1, .alo true 2), (1, .pstZn 2 false), (1, .conR 2 none (some 0)), (1, .ald .zhead .rlx (some 1)),
+   (1, .ald (.nnext 0) .sc none), (1, .pldDel 0 false), (1, .alo true 2), (1, .pstZn 2 false), (1, .conR 2 none (some 0)),
+   (1, .pstDel 0 true), (1, .ald (.nback 0) .sc none),
+   (1, .ald (.nnext 0) .sc none), (1, .ast .head .sc none), (1, .ast .tail .sc none), (1, .ald .zhead .rlx (some 1)),
    (1, .ast (.rnext 2) .rlx (some 1)), (1, .cas .sc (some 1) (some 2) true (some 1)), (1, .mul), (1, .ret (.erase true)),
    (2, .call .rel), (2, .ald (.rnext 1) .sc (some 0)), (2, .ald (.rowner 0) .sc (some 1)), (2, .ast (.rowner 1) .sc none), (2, .ret .rel),
    (1, .call .rel), (1, .ald (.rnext 0) .sc none), (1, .ast (.rnext 0) .sc none), (1, .ast (.rowner 0) .sc none), (1, .ret .rel),
@@ -119,16 +119,16 @@ def hbWitness : List (Tid × Ev) :=
    (3, .ast (.rnext 3) .sc none), (3, .ast (.rowner 3) .sc none), (3, .ret .rel)]
 
 /-- the trace is accepted, the destructor has not started, and it contains: the construction of N0 by thread 1 (13) and
-its read by thread 2 (31); that read and the destruction of N0 by thread 3 (83); the construction of Z2 by thread 1 (47)
+its read by thread 2 (31); that read and the destruction of N0 by thread 3 (83); the construction of Z2 by thread 1 (42)
 and its plain read by thread 3 (82); thread 2's store to `owner` of Z1 (56) and the destruction of Z1 by thread 3 (90) -/
 example : ∃ s, run hbWitness = some s ∧ s.dt = false ∧
     hbWitness[13]? = some (1, .conN 0 5) ∧ hbWitness[31]? = some (2, .pldData 0 5) ∧ hbWitness[83]? = some (3, .des false 0) ∧
-    hbWitness[47]? = some (1, .conR 2 none (some 0)) ∧ hbWitness[82]? = some (3, .pldZn 2 false) ∧
+    hbWitness[42]? = some (1, .conR 2 none (some 0)) ∧ hbWitness[82]? = some (3, .pldZn 2 false) ∧
     hbWitness[56]? = some (2, .ast (.rowner 1) .sc none) ∧ hbWitness[90]? = some (3, .des true 1) :=
   ⟨_, rfl, rfl, rfl, rfl, rfl, rfl, rfl, rfl, rfl⟩
 
 example : HB.HB (hbTrace .sc true hbWitness) 13 31 ∧ HB.HB (hbTrace .sc true hbWitness) 31 83 ∧
-    HB.HB (hbTrace .sc true hbWitness) 47 82 ∧ HB.HB (hbTrace .sc true hbWitness) 56 90 :=
+    HB.HB (hbTrace .sc true hbWitness) 42 82 ∧ HB.HB (hbTrace .sc true hbWitness) 56 90 :=
   ⟨C07_rcu_node_publication Ords.sc_ok true (s := _) rfl rfl (by decide) rfl rfl rfl rfl,
    C07_rcu_node_reclamation Ords.sc_ok true (s := _) rfl rfl (by decide) rfl rfl rfl rfl,
    C07_rcu_record_publication Ords.sc_ok true (s := _) rfl rfl (by decide) rfl rfl rfl rfl,
@@ -165,8 +165,8 @@ theorem C07_rcu_ldLink_needed : ∃ s, run hbWitness = some s ∧ HB.Race (hbTra
 /-- the witness is race free under the weakest admissible orders -/
 example : HB.raceFree (hbTrace Ords.weakest true hbWitness) = true := by decide
 
-/-- writer 1 and reader 2 still hold their handles; handle 3 registers and releases: it loads `owner` of the zombie
-record Z2 (66) that writer 1 constructed (47) and stops at the active record Z1 -/
+/-- writer 1 and reader 2 still hold their handles; handle 3 registers and releases: it scans the zombie record Z2 and
+stops at reader 2's active record Z1, whose `owner` it loads (68); reader 2 constructed Z1 at 24 -/
 def hbWitness2 : List (Tid × Ev) := hbWitness.take 53 ++
   [(3, .call (.lock false)), (3, .ret (.lock false)), (3, .call .beg), (3, .alo true 3), (3, .pstZn 3 true),
    (3, .conR 3 (some 3) none), (3, .ald .zhead .rlx (some 2)), (3, .ast (.rnext 3) .rlx (some 2)),
@@ -175,17 +175,18 @@ def hbWitness2 : List (Tid × Ev) := hbWitness.take 53 ++
    (3, .ald (.rowner 1) .sc (some 2)), (3, .ast (.rowner 3) .sc none), (3, .ret .rel)]
 
 /-- **The CAS on `m_zombie_head` must be acquire-release.**  With a relaxed CAS the accepted trace `hbWitness2` no
-longer orders the construction of record Z2 (its non-atomic initialisation of `owner`) before handle 3's atomic load of
-that `owner`: nothing else synchronises the two threads (the initial load of `m_zombie_head` and the store of the new
-record's `next` are relaxed in the code).  Plain locations do not show this (hence no `Race`): it is the lifetime of the
-atomic member that is at stake — theorem (b) above. -/
+longer orders the construction of reader 2's record Z1 (its non-atomic initialisation of `owner`) before handle 3's atomic
+load of that `owner`: nothing else synchronises the two threads (reader 2 has only loaded so far; the initial load of
+`m_zombie_head` and the store of the new record's `next` are relaxed in the code).  Plain locations do not show this
+(hence no `Race`): it is the lifetime of the atomic member that is at stake — theorem (b) above.  (For the zombie record of
+an `erase` the unlink stores that follow its construction publish it as well.) -/
 theorem C07_rcu_cas_needed : ∃ s, run hbWitness2 = some s ∧
-    hbWitness2[47]? = some (1, .conR 2 none (some 0)) ∧ hbWitness2[66]? = some (3, .ald (.rowner 2) .sc none) ∧
-    HB.HB (hbTrace .sc true hbWitness2) 47 66 ∧ ¬ HB.HB (hbTrace { cas := .rlx } true hbWitness2) 47 66 := by
+    hbWitness2[24]? = some (2, .conR 1 (some 2) none) ∧ hbWitness2[68]? = some (3, .ald (.rowner 1) .sc (some 2)) ∧
+    HB.HB (hbTrace .sc true hbWitness2) 24 68 ∧ ¬ HB.HB (hbTrace { cas := .rlx } true hbWitness2) 24 68 := by
   refine ⟨_, rfl, rfl, rfl, ?_, ?_⟩
   · exact C07_rcu_record_publication Ords.sc_ok true (s := _) (es := hbWitness2) rfl rfl (by decide) rfl rfl rfl rfl
   · intro h
-    have := HB.hb_clock h 1 3 _ _ rfl rfl 1
+    have := HB.hb_clock h 2 3 _ _ rfl rfl 2
     revert this
     decide
 
